@@ -46,6 +46,8 @@ class Gen(object):
         self.closures = []      # (name, set of closed-over variables)
         self.uses_obj = False
         self.uses_dict = False
+        self.readonly = set()   # variables of f that f itself only assigns at its top level (owned by a nonlocal-writing closure)
+        self.nh = 0
 
     def emit(self, ind, s):
         self.lines.append(ind + s)
@@ -53,7 +55,7 @@ class Gen(object):
     # ------------------------------------------------------------------ expressions
     def leaf(self, da):
         r = self.rng
-        pool = sorted(v for v in da if v in self.ivars or v in ('i', 'j', 'k')) + ['a', 'b', 'c']
+        pool = sorted(v for v in da if v in self.ivars or v in ('i', 'j', 'k') or v in self.readonly) + ['a', 'b', 'c']
         c = r.random()
         if c < 0.2:
             return str(r.randrange(-2, 6))
@@ -222,6 +224,36 @@ class Gen(object):
             return da | {v, g}
         return self.assign(ind, da)
 
+    def nonlocal_closure(self, ind, da):
+        """At the top level of f only: a closure that WRITES a variable of f through `nonlocal`, with its own control
+        flow, called right away at the top level.  f itself never assigns that variable inside a control-flow body
+        (that shape is the known finding `nonlocal_write_in_reaching_closure`), and the closure is never called from
+        inside f's control flow (writes through called functions are a documented limit)."""
+        r = self.rng
+        self.nh += 1
+        m, h = 'm%d' % self.nh, 'h%d' % self.nh
+        self.features.add('nonlocal_closure')
+        self.emit(ind, '%s = %s' % (m, self.iexpr(da, 1)))
+        self.emit(ind, 'def %s(p):' % h)
+        self.emit(ind + '    ', 'nonlocal %s' % m)
+        inner = Gen(self.rng, 4, False, False)
+        fv = set(v for v in da if v in self.ivars or v in self.readonly)
+        inner.ivars = [m, 'q']
+
+        def leaf(d):
+            if inner.rng.random() < 0.25:
+                return str(inner.rng.randrange(-2, 6))
+            return inner.rng.choice(sorted(d))
+        inner.leaf = leaf
+        inner_da = inner.block(ind + '    ', fv | {'p', m}, 2, False, minlen=2)
+        self.lines.extend(inner.lines)
+        self.features |= set('nlclosure:' + f for f in inner.features)
+        self.emit(ind + '    ', 'return %s' % inner.iexpr(inner_da, 1))
+        v = r.choice(self.ivars)
+        self.emit(ind, '%s = %s(%s)' % (v, h, self.iexpr(da, 1)))
+        self.readonly.add(m)
+        return da | {v, m}
+
     def block_as_function(self, ind, da, depth):
         """Body of a nested def: reads (never writes) the enclosing variables in `da`; its own locals are q, r."""
         self.ivars = ['q', 'r']
@@ -251,6 +283,8 @@ def make_program(rng, size=10, rich=False, midreturn=False):
             g.emit(ind, '%s = %s' % (v, e))
             da.add(v)
     while g.budget > 0:
+        if rich and g.nh < 2 and rng.random() < 0.2:
+            da = g.nonlocal_closure(ind, da)
         da = g.stmt(ind, da, 4, False)
     ints = sorted(v for v in da if v in g.ivars)
     if rich and rng.random() < 0.5:
@@ -327,6 +361,16 @@ KNOWN_CLASS_PROGRAMS = {
         b = b + t
         t = 7
     return b
+''',
+    'nonlocal_state_var_marked_input_only': '''def f(a, b, c, l):
+    m = 3
+    def h(p):
+        nonlocal m
+        if m > p:
+            m = p
+        return p
+    z = h(a)
+    return m
 ''',
 }
 
